@@ -52,7 +52,7 @@ func mk02(kind string, dial func() *fakeConn) (xchg02, func()) {
 
 func runC02(r *Run) {
 	kinds := []string{"tdc-udp", "tdc-tcp", "pipeline-tcp", "pipeline-udp", "reuse"}
-	scens := []string{"during-send", "during-send+eof", "parked+eof", "parked", "burst-during-send"}
+	scens := []string{"during-send", "during-send+eof", "parked+eof", "parked", "burst-during-send", "parked-after-resend"}
 	reps := r.N(12, 150)
 	connID := 0
 	for _, kind := range kinds {
@@ -61,11 +61,20 @@ func runC02(r *Run) {
 			if sc == "burst-during-send" && kind == "reuse" {
 				continue // one query per connection at a time
 			}
-			for rep := 0; rep < reps; rep++ {
+			nrep := reps
+			if sc == "parked-after-resend" {
+				if stream {
+					continue // only datagram connections retransmit
+				}
+				nrep = r.N(1, 4) // each case takes 1.2 s of wall-clock time
+			}
+			for rep := 0; rep < nrep; rep++ {
 				var mu sync.Mutex
 				var conns []*fakeConn
 				withEOF := sc == "during-send+eof" || sc == "parked+eof"
 				parked := sc == "parked+eof" || sc == "parked"
+				afterResend := sc == "parked-after-resend"
+				var firstWrite sync.Once
 				dial := func() *fakeConn {
 					connID++
 					c := newFakeConn(connID, stream)
@@ -75,6 +84,17 @@ func runC02(r *Run) {
 							return nil
 						}
 						reply := c.frame(mkReply(q, binary.BigEndian.Uint16(q)))
+						if afterResend {
+							// the reply comes only after the caller has retransmitted once (1 s ticker): the retransmission
+							// must neither fail the exchange nor lose the reply
+							firstWrite.Do(func() {
+								go func() {
+									time.Sleep(1150 * time.Millisecond)
+									c.feed(reply)
+								}()
+							})
+							return nil
+						}
 						if parked {
 							go func() {
 								time.Sleep(time.Duration(2+r.Rng.Intn(6)) * time.Millisecond) // the caller parks meanwhile
@@ -142,16 +162,20 @@ func runC02(r *Run) {
 					case !rs.own:
 						out = "foreign-reply"
 						r.Fail("the exchange returned something other than the reply to its own query", desc)
-					case rs.took > 700*time.Millisecond:
+					case afterResend && (rs.took < 1100*time.Millisecond || rs.took > 1900*time.Millisecond):
+						out = "late"
+						r.Fail("the reply sent 1.15 s after the query (after one retransmission) was not returned when it arrived", desc)
+					case !afterResend && rs.took > 700*time.Millisecond:
 						out = "late"
 						r.Fail("the exchange returned the reply only after a retransmission / long wait although it had arrived at once", desc)
 					}
 					labels := map[string]string{
-						"during-send":       "readerDeliver,writeReturns,pickReply",
-						"burst-during-send": "readerDeliver,writeReturns,pickReply",
-						"during-send+eof":   "readerDeliver,readerClose,writeReturns,pickClose",
-						"parked":            "writeReturns,readerDeliver,pickReply",
-						"parked+eof":        "writeReturns,readerDeliver,readerClose,pickClose",
+						"during-send":         "readerDeliver,writeReturns,pickReply",
+						"burst-during-send":   "readerDeliver,writeReturns,pickReply",
+						"during-send+eof":     "readerDeliver,readerClose,writeReturns,pickClose",
+						"parked":              "writeReturns,readerDeliver,pickReply",
+						"parked+eof":          "writeReturns,readerDeliver,readerClose,pickClose",
+						"parked-after-resend": "writeReturns,readerDeliver,pickReply",
 					}[sc]
 					r.Line("sched 1 1 "+labels, out)
 					r.Eval(fmt.Sprintf("%s/%s/%d/%d", kind, sc, rep, i), true)
